@@ -174,6 +174,11 @@ class Runner:
             key = (e[1], e[2], e[3])
             o = pool.get(key)
             if o is not None and used is not None and any(o is u for u in used):
+                if self.backend == "memory" and e[0] is None and o.id is None:
+                    # `n * [event]`: the same id-less object several times in one list. The memory store never writes to the
+                    # caller's objects, so each occurrence is one more event to store (the SQL stores stamp the new id on the
+                    # object they are given, which makes a second occurrence an update: they get distinct objects)
+                    return o
                 o = None
                 key = None
             if o is None:
